@@ -38,7 +38,7 @@ COMPONENTS = {
 PROBES = ["history_continued_on_a_deep_copy", "history_continued_on_a_copy", "sequencer_looked_at", "earlier_start_object_installed_again", "sequencer_subclass_with_own_constructor", "start_constructed_ahead_of_hand_over", "start_object_changed_in_place", "user_start_derived_from_library_class", "update_at_counter_9", "update_at_counter_0", "back_to_back_updates", "update_with_packets_in_flight",
           "three_wraparounds_between_updates", "reconnect", "sequence_sent_as_short", "two_pings_outstanding",
           "request_from_another_thread"]
-FAULT_KINDS = ["update_during_failed_request", "start_in_force_broken_at_update", "latency_jitter", "start_update_mid_burst", "reconnect", "start_unreadable_during_request", "update_during_request"]
+FAULT_KINDS = ["request_during_request", "update_during_failed_request", "start_in_force_broken_at_update", "latency_jitter", "start_update_mid_burst", "reconnect", "start_unreadable_during_request", "update_during_request"]
 SHRINK_KEYS = ["script", "local"]
 
 
@@ -90,6 +90,11 @@ def generate(streams, tier):
         if rng.random() < 0.02:
             # ... duplicated in depth: the copy owns a copy of the start, the original's start is none of its business any more
             local.append(["continue_on_deepcopy"])
+            continue
+        if rng.random() < 0.03:
+            # a request is made from inside the start's own value read (a start that confirms itself through the same
+            # connection on first use): two numbers are returned, the inner one first
+            local.append(["next_with_next_inside"])
             continue
         if rng.random() < 0.03:
             # a start update arrives while a request is in progress, and then that request fails
@@ -344,7 +349,11 @@ def run_local(plan, s, res, tr):
                 super().__init__(7, 1, 2)
             self._v = v
 
-        if plan.get("start_base", 0) % 7 == 3:
+        if plan.get("start_base", 0) % 7 == 1:
+            def __eq__(self, other):    # compares by value like a dataclass, and is therefore not hashable
+                return isinstance(other, type(self)) and other._v == self._v
+            __hash__ = None
+        elif plan.get("start_base", 0) % 7 == 3:
             def __len__(self):          # an application start that happens to be a sized, empty thing: falsy
                 return 0
         elif plan.get("start_base", 0) % 7 == 5:
@@ -443,6 +452,19 @@ def run_local(plan, s, res, tr):
                 orphaned._v = start + 1000      # the original's start changes: the copy must not notice
                 res.count("probe.history_continued_on_a_deep_copy")
             tr.ev("local", "deepcopy", clone is not None)
+        elif op[0] == "next_with_next_inside":
+            inner = []
+            state["on_read"] = lambda: inner.append(seq.next_sequence())
+            outer = seq.next_sequence()
+            state["on_read"] = None
+            res.count("fault.request_during_request")
+            tr.ev("local", "next-in-next", inner[:1], outer)
+            want = [start + n % 10, start + (n + 1) % 10]
+            if inner[:1] + [outer] != want:
+                s.fail("sequence-value", "local", f"local history step {i}: a request made from inside the start's value read returned "
+                       f"{inner[:1]}, the request it interrupted then returned {outer}; requests #{n} and #{n + 1} with start {start} are {want}")
+                return
+            n += 2
         elif op[0] == "failed_next_with_update_inside":
             new_start = ProbeStart(op[1])
 
